@@ -1,14 +1,15 @@
 #!/bin/bash
 # usage: tools_seed_run.sh <seed-id e.g. C07-m1> <property> [extra check args]
-# applies the seeded change to /repo, runs the quick check, restores /repo.
+# Applies the seeded change to a scratch git worktree of /repo's HEAD (never to /repo itself),
+# runs the quick check of <property> against that worktree (-repo), removes the worktree.
 seed="$1"; prop="$2"; shift 2
-cd /repo || exit 2
-if [ -n "$(git status --porcelain)" ]; then echo "/repo not clean" >&2; exit 2; fi
-git apply /verif/seeded/$seed/patch.diff 2>/dev/null || patch -p1 -s --no-backup-if-mismatch < /verif/seeded/$seed/patch.diff || { echo "cannot apply $seed"; git checkout -- .; exit 2; }
-cd /verif && timeout 900 ./check "$prop" quick -no-evidence -max-paths 60000 "$@" > /tmp/seedrun_$seed.log 2>&1
+wt=/tmp/seedwt_$seed
+rm -rf $wt; git -C /repo worktree prune
+git -C /repo worktree add -q --detach $wt HEAD || exit 2
+(cd $wt && (git apply /verif/seeded/$seed/patch.diff 2>/dev/null || patch -p1 -s --no-backup-if-mismatch < /verif/seeded/$seed/patch.diff)) || { echo "cannot apply $seed"; git -C /repo worktree remove --force $wt; exit 2; }
+cd /verif && timeout 900 ./check "$prop" quick -no-evidence -max-paths 60000 -repo $wt "$@" > /tmp/seedrun_$seed.log 2>&1
 rc=$?
-git -C /repo checkout -- .
-find /repo -name '*.orig' -o -name '*.rej' | xargs -r rm -f
+git -C /repo worktree remove --force $wt; git -C /repo worktree prune
 echo "seed=$seed property=$prop exit=$rc violations=$(grep -c '^VIOLATION' /tmp/seedrun_$seed.log)"
 grep "^violation" /tmp/seedrun_$seed.log | sed 's/ inputs=.*//' | sort | uniq -c | head -5
 grep "^INCONCLUSIVE" /tmp/seedrun_$seed.log | cut -c1-300 | head -3
